@@ -243,6 +243,26 @@ func (l *Loaded) keyLayoutEnv(fn *ssa.Function, env *klEnv, depth int) *keyLayou
 					fail("unmodelled buffer operation %s", full)
 				}
 			default:
+				// a helper of the package that appends to the buffer it is handed: inline what it writes
+				if g := call.Call.StaticCallee(); g != nil && g.Blocks != nil && g != fn && fnPkgPath(g) == fnPkgPath(fn) && depth < 4 {
+					takesBuf := false
+					for _, p := range g.Params {
+						if p.Type().String() == "*bytes.Buffer" {
+							takesBuf = true
+						}
+					}
+					if takesBuf {
+						sub := l.keyLayoutEnv(g, bindArgs(g, call, env), depth+1)
+						if !sub.ok {
+							fail("inlined writer %s: %s", g.Name(), sub.why)
+						}
+						if len(kl.segs) == 0 {
+							kl.lead = sub.lead
+						}
+						kl.segs = append(kl.segs, sub.segs...)
+						continue
+					}
+				}
 				// calls to another key builder: inline its layout
 				if g := call.Call.StaticCallee(); g != nil && g.Blocks != nil && fnPkgPath(g) == fnPkgPath(fn) && isBytesResult(g) && strings.Contains(Sym(in.(ssa.Value)), "") {
 					// only when its result feeds a buffer write / append in this function; handled by classify via Write
